@@ -1,16 +1,73 @@
 // Shared part of the views driver (see drv_views.cpp).  One translation unit per rank (group)
-// instantiates V<R>; the others only see the declarations of wrap()/make_parent_R().
+// instantiates V<AR>; the others only see the declarations of wrap()/make_parent_R().
 #ifndef VERIF_DRV_VIEWS_H
 #define VERIF_DRV_VIEWS_H
 #include "spy.h"
 #include <cstdlib>
+#include <type_traits>
 using namespace adept;
 
 typedef decltype(adept::end - 1) EndX;
 inline EndX endx(int k) { return adept::end - k; }
 
-struct Tok { bool from_end; int k; };           // k, or end - k
-struct Arg { int kind; Tok b, e; int s; };      // kind 0 scalar, 1 range, 2 stride, 3 all
+struct BadOp {};
+
+// ------------------------------------------------------------------ index expressions
+// E = k | eK (end - K) | end | (E op E)   op = + - * / > (max) < (min)
+// An expression other than k / eK is a "rich" expression: its C++ type depends on its shape (the text with
+// every integer replaced by #), so only the shapes of the menu below exist in the harness; the integers come
+// from the stream.  The first XMENU3 shapes are compiled for rank-3 views, the first XMENU2 for rank-2 views
+// (and for `ix`), all of them for rank-1 views.
+#define XS_0 "(#-end)"
+#define XE_0(K) ((K)[0] - adept::end)                       // BinaryOpScalarLeft<Subtract>
+#define XS_1 "(end/#)"
+#define XE_1(K) (adept::end / (K)[0])                       // BinaryOpScalarRight<Divide>
+#define XS_2 "(#/end)"
+#define XE_2(K) ((K)[0] / adept::end)                       // BinaryOpScalarLeft<Divide>
+#define XS_3 "((end-#)/#)"
+#define XE_3(K) ((adept::end - (K)[0]) / (K)[1])            // nested ScalarRight
+#define XS_4 "end"
+#define XE_4(K) (adept::end)                                // EndIndex itself
+#define XS_5 "(#+end)"
+#define XE_5(K) ((K)[0] + adept::end)                       // BinaryOpScalarLeft<Add>
+#define XS_6 "(#*end)"
+#define XE_6(K) ((K)[0] * adept::end)                       // BinaryOpScalarLeft<Multiply>
+#define XS_7 "(end-(end/#))"
+#define XE_7(K) (adept::end - (adept::end / (K)[0]))        // BinaryOperation<Subtract> of two expressions
+#define XS_8 "(end+#)"
+#define XE_8(K) (adept::end + (K)[0])                       // BinaryOpScalarRight<Add>
+#define XS_9 "(end*#)"
+#define XE_9(K) (adept::end * (K)[0])                       // BinaryOpScalarRight<Multiply>
+#define XS_10 "(#-(end/#))"
+#define XE_10(K) ((K)[0] - (adept::end / (K)[1]))
+#define XS_11 "((#*end)-#)"
+#define XE_11(K) (((K)[0] * adept::end) - (K)[1])
+#define XS_12 "((#-end)*#)"
+#define XE_12(K) (((K)[0] - adept::end) * (K)[1])
+#define XS_13 "(#/(end-#))"
+#define XE_13(K) ((K)[0] / (adept::end - (K)[1]))
+#define XS_14 "(#-(#-end))"
+#define XE_14(K) ((K)[0] - ((K)[1] - adept::end))
+#define XS_15 "((end-#)>#)"
+#define XE_15(K) (adept::max(adept::end - (K)[0], (K)[1]))  // BinaryOpScalarRight<Max>
+#define XS_16 "(#<end)"
+#define XE_16(K) (adept::min((K)[0], adept::end))           // BinaryOpScalarLeft<Min>
+#define XS_17 "((end*end)/#)"
+#define XE_17(K) ((adept::end * adept::end) / (K)[0])
+#define XS_18 "((end/#)+(end/#))"
+#define XE_18(K) ((adept::end / (K)[0]) + (adept::end / (K)[1]))
+#define XSHAPES(X) X(0) X(1) X(2) X(3) X(4) X(5) X(6) X(7) X(8) X(9) X(10) X(11) X(12) X(13) X(14) X(15) X(16) X(17) X(18)
+enum { XMENU1 = 19, XMENU2 = 8, XMENU3 = 4 };
+inline const char* const* xshape_table() {
+#define X(ID) XS_##ID,
+  static const char* const t[] = { XSHAPES(X) 0 };
+#undef X
+  return t;
+}
+
+struct Tok { int cls; int k; int shape; int c[3]; };        // cls 0: k   1: end - k   2: rich (shape, constants c)
+struct Arg { int kind; Tok b, e, s; };                      // kind 0 scalar (b), 1 range (b,e), 2 stride (b,e,s), 3 all
+struct Call { std::vector<Arg> t; int xpos; bool cf; };     // xpos: the argument holding rich expressions (-1: none); cf: const overload
 
 inline bool parse_int(const std::string& t, int& v) {
   if (t.empty()) return false;
@@ -20,9 +77,52 @@ inline bool parse_int(const std::string& t, int& v) {
   v = (int)x;
   return true;
 }
+// operand := INT | end | v | ( operand OP operand ): appends the shape text and the integers
+inline bool px_parse(const char*& p, std::string& shape, std::vector<int>& consts, int depth) {
+  if (depth > 12) return false;
+  if (*p == '(') {
+    ++p; shape += '(';
+    if (!px_parse(p, shape, consts, depth + 1)) return false;
+    if (!*p || !strchr("+-*/<>", *p)) return false;
+    shape += *p; ++p;
+    if (!px_parse(p, shape, consts, depth + 1)) return false;
+    if (*p != ')') return false;
+    ++p; shape += ')';
+    return true;
+  }
+  if (p[0] == 'e' && p[1] == 'n' && p[2] == 'd') { p += 3; shape += "end"; return true; }
+  if (*p == 'v') { ++p; shape += 'v'; return true; }
+  const char* q = p;
+  if (*q == '-') ++q;
+  if (!(*q >= '0' && *q <= '9')) return false;
+  while (*q >= '0' && *q <= '9') ++q;
+  int v;
+  if (!parse_int(std::string(p, q), v)) return false;
+  consts.push_back(v); shape += '#'; p = q;
+  return true;
+}
+inline bool parse_shape(const std::string& t, std::string& shape, std::vector<int>& consts) {
+  const char* p = t.c_str();
+  shape.clear(); consts.clear();
+  return px_parse(p, shape, consts, 0) && *p == 0;
+}
+// false: malformed; throws BadOp for a well-formed expression whose shape is not compiled
 inline bool parse_tok(const std::string& t, Tok& o) {
-  if (!t.empty() && t[0] == 'e') { o.from_end = true; return parse_int(t.substr(1), o.k); }
-  o.from_end = false;
+  o.cls = 0; o.k = 0; o.shape = -1; o.c[0] = o.c[1] = o.c[2] = 0;
+  if (!t.empty() && (t[0] == '(' || t == "end")) {
+    std::string shape; std::vector<int> consts;
+    if (!parse_shape(t, shape, consts) || consts.size() > 3) return false;
+    if (shape == "(end-#)") { o.cls = 1; o.k = consts[0]; return true; }
+    const char* const* tab = xshape_table();
+    for (int id = 0; tab[id]; ++id)
+      if (shape == tab[id]) {
+        o.cls = 2; o.shape = id;
+        for (size_t j = 0; j < consts.size(); ++j) o.c[j] = consts[j];
+        return true;
+      }
+    throw BadOp();
+  }
+  if (!t.empty() && t[0] == 'e') { o.cls = 1; return parse_int(t.substr(1), o.k); }
   return parse_int(t, o.k);
 }
 inline std::vector<std::string> split(const std::string& s, char c) {
@@ -32,21 +132,38 @@ inline std::vector<std::string> split(const std::string& s, char c) {
   return out;
 }
 inline bool parse_arg(const std::string& t, Arg& a) {
-  a.s = 1;
+  a.s.cls = 0; a.s.k = 1; a.s.shape = -1;
   if (t == "_") { a.kind = 3; return true; }
   if (t.size() < 3 || t[1] != ':') return false;
   std::vector<std::string> p = split(t.substr(2), ',');
   if (t[0] == 'i' && p.size() == 1) { a.kind = 0; return parse_tok(p[0], a.b); }
   if (t[0] == 'r' && p.size() == 2) { a.kind = 1; return parse_tok(p[0], a.b) && parse_tok(p[1], a.e); }
-  if (t[0] == 's' && p.size() == 3) { a.kind = 2; return parse_tok(p[0], a.b) && parse_tok(p[1], a.e) && parse_int(p[2], a.s); }
+  if (t[0] == 's' && p.size() == 3) {
+    a.kind = 2;
+    return parse_tok(p[0], a.b) && parse_tok(p[1], a.e) && parse_tok(p[2], a.s) && a.s.cls != 1;
+  }
   return false;
+}
+inline bool arg_rich(const Arg& a) {
+  if (a.kind == 3) return false;
+  if (a.kind == 0) return a.b.cls == 2;
+  return a.b.cls == 2 || a.e.cls == 2 || a.s.cls == 2;
+}
+inline bool arg_any_end(const Arg& a) {
+  return a.kind != 3 && (a.b.cls == 1 || (a.kind != 0 && a.e.cls == 1));
 }
 
 // ------------------------------------------------------------------ the parent allocation
-extern int* g_pdata;
+extern int* g_pdata;        // passive parents (Array<r,int>, FixedArray<int,false,...>)
+extern double* g_adata;     // active parents (Array<r,double,true>)
+extern Index g_gbase;       // gradient index of cell 0 of the active parent
 extern long g_vol;
 
-struct BadOp {};
+inline void set_base(int* p) { g_pdata = p; g_adata = 0; }
+inline void set_base(double* p) { g_adata = p; g_pdata = 0; }
+template <class T> struct Mem;
+template <> struct Mem<int> { static long cell(const int* p) { return p - g_pdata; } };
+template <> struct Mem<double> { static long cell(const double* p) { return p - g_adata; } };
 
 struct VBase {
   virtual ~VBase() {}
@@ -60,275 +177,556 @@ struct VBase {
 inline std::string dump_changes() {
   std::ostringstream os;
   bool first = true;
-  for (long c = 0; c < g_vol; ++c)
-    if (g_pdata[c] != c) {
+  for (long c = 0; c < g_vol; ++c) {
+    long v = g_pdata ? (long)g_pdata[c] : (long)g_adata[c];
+    if (v != c) {
       if (!first) os << ";";
       first = false;
-      os << c << ":" << g_pdata[c];
-      g_pdata[c] = (int)c;
+      os << c << ":" << v;
+      if (g_pdata) g_pdata[c] = (int)c; else g_adata[c] = (double)c;
     }
+  }
   return os.str();
 }
 
-inline int& elem(Array<1,int>& a, const int* i) { return a(i[0]); }
-inline int& elem(Array<2,int>& a, const int* i) { return a(i[0], i[1]); }
-inline int& elem(Array<3,int>& a, const int* i) { return a(i[0], i[1], i[2]); }
-inline int& elem(Array<4,int>& a, const int* i) { return a(i[0], i[1], i[2], i[3]); }
-inline int& elem(Array<5,int>& a, const int* i) { return a(i[0], i[1], i[2], i[3], i[4]); }
+// element access with a run-time index list: cc = through the const overload, nc = through the non-const one
+template <int R> struct El;
+#define VIEWS_EL(R, ARGS) \
+  template <> struct El<R> { \
+    template <class AR> static auto nc(AR& a, const int* i) -> decltype(a(ARGS)) { return a(ARGS); } \
+    template <class AR> static auto cc(const AR& a, const int* i) -> decltype(a(ARGS)) { return a(ARGS); } \
+  };
+#define VIEWS_C ,
+VIEWS_EL(1, i[0])
+VIEWS_EL(2, i[0] VIEWS_C i[1])
+VIEWS_EL(3, i[0] VIEWS_C i[1] VIEWS_C i[2])
+VIEWS_EL(4, i[0] VIEWS_C i[1] VIEWS_C i[2] VIEWS_C i[3])
+VIEWS_EL(5, i[0] VIEWS_C i[1] VIEWS_C i[2] VIEWS_C i[3] VIEWS_C i[4])
+VIEWS_EL(6, i[0] VIEWS_C i[1] VIEWS_C i[2] VIEWS_C i[3] VIEWS_C i[4] VIEWS_C i[5])
+#undef VIEWS_EL
+inline long elval(const int& r) { return r; }
+inline long elval(const ActiveReference<double>& r) { return (long)r.value(); }
+inline long elval(const ActiveConstReference<double>& r) { return (long)r.value(); }
 
-// defined in the translation unit that instantiates V<R> (rank 0: drv_views.cpp)
-VBase* wrap(int& r);
+// the kinds of array object that are driven
+template <class AR> struct ArT;
+template <int R, class T, bool A> struct ArT<Array<R,T,A> > { enum { rank = R, active = A, fixed = 0 }; typedef T elem; };
+template <class T, bool A, Index J0, Index J1, Index J2, Index J3, Index J4, Index J5, Index J6>
+struct ArT<FixedArray<T,A,J0,J1,J2,J3,J4,J5,J6> > {
+  enum { rank = FixedArray<T,A,J0,J1,J2,J3,J4,J5,J6>::rank, active = A, fixed = 1 }; typedef T elem;
+};
+typedef FixedArray<int,false,4> Fix1;
+typedef FixedArray<int,false,3,4> Fix2;
+typedef FixedArray<int,false,3,3> Fix2s;
+typedef FixedArray<int,false,2,3,4> Fix3;
+
+// rank 0: the element returned by operator() with only scalar arguments; it is read, and -1 is written through it, at once
+struct V0 : VBase {
+  std::string line;
+  explicit V0(const std::string& l) : line(l) {}
+  int rank() const { return 0; }
+  std::string describe() { return line; }
+  VBase* apply(const std::vector<std::string>&) { throw BadOp(); }
+  int contig() { throw BadOp(); }
+  std::string indexed(const std::vector<std::string>&) { throw BadOp(); }
+};
+inline VBase* wrap0(long cell, long val) {
+  std::ostringstream os;
+  os << "ok r=0 d= s= o=" << cell << " e=" << val << " w=" << dump_changes();
+  return new V0(os.str());
+}
+inline VBase* wrap(int& r) { long c = &r - g_pdata, v = r; r = -1; return wrap0(c, v); }
+inline VBase* wrapc(const int& r) { return wrap(const_cast<int&>(r)); }
+// active element: located through its gradient index (the reference does not expose the address of the value)
+inline VBase* wrap(ActiveReference<double> r) { long c = r.gradient_index() - g_gbase, v = (long)r.value(); r = -1.0; return wrap0(c, v); }
+inline VBase* wrapc(const ActiveConstReference<double>& r) {
+  long c = r.gradient_index() - g_gbase, v = (long)r.value();
+  if (c >= 0 && c < g_vol) g_adata[c] = -1.0;      // (a const reference cannot be assigned to)
+  return wrap0(c, v);
+}
+// defined in the translation unit that instantiates V<AR>
 VBase* wrap(const Array<1,int>& a);
 VBase* wrap(const Array<2,int>& a);
 VBase* wrap(const Array<3,int>& a);
 VBase* wrap(const Array<4,int>& a);
 VBase* wrap(const Array<5,int>& a);
+VBase* wrap(const Array<6,int>& a);
+VBase* wrap(const Array<1,double,true>& a);
+VBase* wrap(const Array<2,double,true>& a);
+VBase* wrap(const Array<3,double,true>& a);
+template <int R, class T, bool A> inline VBase* wrapc(const Array<R,T,A>& a) { return wrap(a); }
 
-// integer-vector indexing (IndexedArray): defined in drv_views_idx*.cpp, ranks 1..4
+// integer-vector indexing (IndexedArray): defined in drv_views_idx*.cpp, passive ranks 1..4
 std::string ix_op(Array<1,int>& a, const std::vector<std::string>& w);
 std::string ix_op(Array<2,int>& a, const std::vector<std::string>& w);
 std::string ix_op(Array<3,int>& a, const std::vector<std::string>& w);
 std::string ix_op(Array<4,int>& a, const std::vector<std::string>& w);
-inline std::string ix_op(Array<5,int>&, const std::vector<std::string>&) { throw BadOp(); }
+template <class AR> inline std::string ix_op(AR&, const std::vector<std::string>&) { throw BadOp(); }
 
 // ------------------------------------------------------------------ operator()(...) dispatch
-enum { FAM_MIX = 0, FAM_INT = 1, FAM_END = 2 };
+// FAM_MIX: per position int / end-k / the four RangeIndex<B,E,int> with B,E in {int, end-k} / __   (ranks 1-2)
+// FAM_INT: int / RangeIndex<int,int,int> / __        FAM_END: end-k / RangeIndex<end-k,end-k,int> / __
+//          (an int k is passed as end-(len-1-k)); rank 6: __ in the last position only
+// FAM_XT : end-k / __ (the other arguments of a rank-3 call with a rich expression)
+enum { FAM_MIX = 0, FAM_INT = 1, FAM_END = 2, FAM_XT = 3 };
 
 typedef internal::RangeIndex<int,int,int> RII;
 typedef internal::RangeIndex<int,EndX,int> RIE;
 typedef internal::RangeIndex<EndX,int,int> REI;
 typedef internal::RangeIndex<EndX,EndX,int> REE;
 // an int k expressed through `end`: end - (len-1-k)
-inline EndX via_end(const Tok& t, int len) { return t.from_end ? endx(t.k) : endx(len - 1 - t.k); }
+inline EndX via_end(const Tok& t, int len) { return t.cls == 1 ? endx(t.k) : endx(len - 1 - t.k); }
 
-template <int Fam> struct Step;
-template <int R, int K, int Fam, typename... As> struct SliceDisp {
-  static VBase* go(Array<R,int>& a, const std::vector<Arg>& t, As... as) {
-    return Step<Fam>::template go<R, K, As...>(a, t, as...);
+struct NoRich {};
+template <bool Ok> struct Terminal {
+  template <class AR, typename... As> static VBase* go(AR& a, const Call& c, const As&... as) {
+    if (c.cf) return wrapc(static_cast<const AR&>(a)(as...));
+    return wrap(a(as...));
   }
 };
-template <int R, int Fam, typename... As> struct SliceDisp<R, R, Fam, As...> {
-  static VBase* go(Array<R,int>& a, const std::vector<Arg>&, As... as) { return wrap(a(as...)); }
+template <> struct Terminal<false> {
+  template <class AR, typename... As> static VBase* go(AR&, const Call&, const As&...) { throw BadOp(); }
 };
-#define NEXT(T, val) SliceDisp<R, K + 1, FAM, As..., T>::go(a, t, as..., val)
+template <int Fam> struct Step;
+template <class AR, int K, int Fam, class XA, bool Used, bool Done, typename... As> struct SliceDisp {
+  static VBase* go(AR& a, const Call& c, const XA& x, As... as) {
+    return Step<Fam>::template go<AR, K, XA, Used, As...>(a, c, x, as...);
+  }
+};
+template <class AR, int K, int Fam, class XA, bool Used, typename... As> struct SliceDisp<AR, K, Fam, XA, Used, true, As...> {
+  static VBase* go(AR& a, const Call& c, const XA&, As... as) {
+    return Terminal<(Used || std::is_same<XA, NoRich>::value)>::go(a, c, as...);
+  }
+};
+#define NEXT(T, val) SliceDisp<AR, K + 1, FAM, XA, Used, (K + 1 == ArT<AR>::rank), As..., T>::go(a, c, x, as..., val)
+// the rich argument (already built, type XA) is passed at its position
+template <class XA, bool Used> struct XStep {
+  template <class AR, int K, int FAM, typename... As> static VBase* go(AR& a, const Call& c, const XA& x, As... as) {
+    return SliceDisp<AR, K + 1, FAM, XA, true, (K + 1 == ArT<AR>::rank), As..., XA>::go(a, c, x, as..., x);
+  }
+};
+template <class XA> struct XStep<XA, true> {
+  template <class AR, int K, int FAM, typename... As> static VBase* go(AR&, const Call&, const XA&, As...) { throw BadOp(); }
+};
+template <bool Used> struct XStep<NoRich, Used> {
+  template <class AR, int K, int FAM, typename... As> static VBase* go(AR&, const Call&, const NoRich&, As...) { throw BadOp(); }
+};
+template <> struct XStep<NoRich, true> {
+  template <class AR, int K, int FAM, typename... As> static VBase* go(AR&, const Call&, const NoRich&, As...) { throw BadOp(); }
+};
+#define TRYX if (K == c.xpos) return XStep<XA, Used>::template go<AR, K, FAM, As...>(a, c, x, as...)
+// `__`: compiled in every position up to rank 5, in the last position only for rank 6
+template <bool Ok> struct AllStep {
+  template <class AR, int K, int FAM, class XA, bool Used, typename... As> static VBase* go(AR& a, const Call& c, const XA& x, As... as) {
+    return NEXT(internal::AllIndex, __);
+  }
+};
+template <> struct AllStep<false> {
+  template <class AR, int K, int FAM, class XA, bool Used, typename... As> static VBase* go(AR&, const Call&, const XA&, As...) { throw BadOp(); }
+};
+#define NEXT_ALL AllStep<(ArT<AR>::rank < 6 || K + 1 == ArT<AR>::rank)>::template go<AR, K, FAM, XA, Used, As...>(a, c, x, as...)
 template <> struct Step<FAM_INT> {
   enum { FAM = FAM_INT };
-  template <int R, int K, typename... As> static VBase* go(Array<R,int>& a, const std::vector<Arg>& t, As... as) {
-    const Arg& x = t[K];
-    if (x.kind == 3) return NEXT(internal::AllIndex, __);
-    if (x.kind == 0) return NEXT(int, x.b.k);
-    if (x.kind == 1) return NEXT(RII, range(x.b.k, x.e.k));
-    return NEXT(RII, stride(x.b.k, x.e.k, x.s));
+  template <class AR, int K, class XA, bool Used, typename... As> static VBase* go(AR& a, const Call& c, const XA& x, As... as) {
+    const Arg& t = c.t[K];
+    if (t.kind == 3) return NEXT_ALL;
+    if (t.kind == 0) return NEXT(int, t.b.k);
+    return NEXT(RII, stride(t.b.k, t.e.k, t.s.k));
   }
 };
 template <> struct Step<FAM_END> {
   enum { FAM = FAM_END };
-  template <int R, int K, typename... As> static VBase* go(Array<R,int>& a, const std::vector<Arg>& t, As... as) {
-    const Arg& x = t[K];
+  template <class AR, int K, class XA, bool Used, typename... As> static VBase* go(AR& a, const Call& c, const XA& x, As... as) {
+    TRYX;
+    const Arg& t = c.t[K];
     int len = a.dimension(K);
-    if (x.kind == 3) return NEXT(internal::AllIndex, __);
-    if (x.kind == 0) return NEXT(EndX, via_end(x.b, len));
-    if (x.kind == 1) return NEXT(REE, range(via_end(x.b, len), via_end(x.e, len)));
-    return NEXT(REE, stride(via_end(x.b, len), via_end(x.e, len), x.s));
+    if (t.kind == 3) return NEXT_ALL;
+    if (t.kind == 0) return NEXT(EndX, via_end(t.b, len));
+    return NEXT(REE, stride(via_end(t.b, len), via_end(t.e, len), t.s.k));
+  }
+};
+template <> struct Step<FAM_XT> {
+  enum { FAM = FAM_XT };
+  template <class AR, int K, class XA, bool Used, typename... As> static VBase* go(AR& a, const Call& c, const XA& x, As... as) {
+    TRYX;
+    const Arg& t = c.t[K];
+    int len = a.dimension(K);
+    if (t.kind == 3) return NEXT(internal::AllIndex, __);
+    if (t.kind == 0) return NEXT(EndX, via_end(t.b, len));
+    throw BadOp();
   }
 };
 template <> struct Step<FAM_MIX> {
   enum { FAM = FAM_MIX };
-  template <int R, int K, typename... As> static VBase* go(Array<R,int>& a, const std::vector<Arg>& t, As... as) {
-    const Arg& x = t[K];
-    if (x.kind == 3) return NEXT(internal::AllIndex, __);
-    if (x.kind == 0) {
-      if (!x.b.from_end) return NEXT(int, x.b.k);
-      return NEXT(EndX, endx(x.b.k));
+  template <class AR, int K, class XA, bool Used, typename... As> static VBase* go(AR& a, const Call& c, const XA& x, As... as) {
+    const Arg& t = c.t[K];
+    if (t.kind == 3) return NEXT(internal::AllIndex, __);
+    if (t.kind == 0) {
+      if (t.b.cls == 0) return NEXT(int, t.b.k);
+      return NEXT(EndX, endx(t.b.k));
     }
-    bool rng = (x.kind == 1);
-    if (!x.b.from_end && !x.e.from_end) return NEXT(RII, rng ? range(x.b.k, x.e.k) : stride(x.b.k, x.e.k, x.s));
-    if (!x.b.from_end) return NEXT(RIE, rng ? range(x.b.k, endx(x.e.k)) : stride(x.b.k, endx(x.e.k), x.s));
-    if (!x.e.from_end) return NEXT(REI, rng ? range(endx(x.b.k), x.e.k) : stride(endx(x.b.k), x.e.k, x.s));
-    return NEXT(REE, rng ? range(endx(x.b.k), endx(x.e.k)) : stride(endx(x.b.k), endx(x.e.k), x.s));
+    if (t.b.cls == 0 && t.e.cls == 0) return NEXT(RII, stride(t.b.k, t.e.k, t.s.k));
+    if (t.b.cls == 0) return NEXT(RIE, stride(t.b.k, endx(t.e.k), t.s.k));
+    if (t.e.cls == 0) return NEXT(REI, stride(endx(t.b.k), t.e.k, t.s.k));
+    return NEXT(REE, stride(endx(t.b.k), endx(t.e.k), t.s.k));
   }
 };
 #undef NEXT
+#undef NEXT_ALL
+#undef TRYX
+template <class AR, int Fam> inline VBase* slice_fam(AR& a, const Call& c) {
+  return SliceDisp<AR, 0, Fam, NoRich, false, false>::go(a, c, NoRich());
+}
+inline bool call_any_end(const Call& c) {
+  for (size_t i = 0; i < c.t.size(); ++i) if (arg_any_end(c.t[i])) return true;
+  return false;
+}
+// calls without rich expressions
+template <class AR, int Sel = (ArT<AR>::fixed || ArT<AR>::active || ArT<AR>::rank == 3) ? 1 : (ArT<AR>::rank <= 2 ? 0 : ArT<AR>::rank)>
+struct DoSlice;                                                  // passive ranks 1-2: every mixture of argument types
+template <class AR> struct DoSlice<AR, 0> { static VBase* go(AR& a, const Call& c) { return slice_fam<AR, FAM_MIX>(a, c); } };
+template <class AR> struct DoSlice<AR, 1> {                      // passive rank 3, active, FixedArray: one family per call
+  static VBase* go(AR& a, const Call& c) { return call_any_end(c) ? slice_fam<AR, FAM_END>(a, c) : slice_fam<AR, FAM_INT>(a, c); }
+};
+// the two argument families of ranks 4-6 are compiled in separate translation units
+VBase* slice_int(Array<4,int>& a, const Call& c);
+VBase* slice_end(Array<4,int>& a, const Call& c);
+VBase* slice_int(Array<5,int>& a, const Call& c);
+VBase* slice_end(Array<5,int>& a, const Call& c);
+VBase* slice_int(Array<6,int>& a, const Call& c);
+VBase* slice_end(Array<6,int>& a, const Call& c);
+template <class AR, int R> struct DoSlice {
+  static VBase* go(AR& a, const Call& c) { return call_any_end(c) ? slice_end(a, c) : slice_int(a, c); }
+};
+// calls with a rich expression: passive Array of rank 1-3 only; defined in drv_views_x*.cpp
+VBase* rich_slice(Array<1,int>& a, const Call& c);
+VBase* rich_slice(Array<2,int>& a, const Call& c);
+VBase* rich_slice(Array<3,int>& a, const Call& c);
+template <class AR> inline VBase* rich_slice(AR&, const Call&) { throw BadOp(); }
+VBase* rich_subset(Array<1,int>& a, const std::vector<Tok>& t, bool cf);
+VBase* rich_subset(Array<2,int>& a, const std::vector<Tok>& t, bool cf);
+template <class AR> inline VBase* rich_subset(AR&, const std::vector<Tok>&, bool) { throw BadOp(); }
+VBase* rich_idx(Array<1,int>& a, const Tok& t, bool cf);
+VBase* rich_idx(Array<2,int>& a, const Tok& t, bool cf);
+template <class AR> inline VBase* rich_idx(AR&, const Tok&, bool) { throw BadOp(); }
 
-template <int R, bool Small = (R <= 2)> struct DoSlice {   // ranks 1-2: every mixture of argument types
-  static VBase* go(Array<R,int>& a, const std::vector<Arg>& t) { return SliceDisp<R, 0, FAM_MIX>::go(a, t); }
-};
-template <int R> struct DoSlice<R, false> {                // ranks 3-5: one family per call
-  static VBase* go(Array<R,int>& a, const std::vector<Arg>& t) {
-    bool any_end = false;
-    for (size_t i = 0; i < t.size(); ++i)
-      if (t[i].kind != 3 && (t[i].b.from_end || (t[i].kind != 0 && t[i].e.from_end))) any_end = true;
-    if (any_end) return SliceDisp<R, 0, FAM_END>::go(a, t);
-    return SliceDisp<R, 0, FAM_INT>::go(a, t);
+template <class AR> inline VBase* op_slice(AR& a, const std::vector<std::string>& w, bool cf) {
+  enum { R = ArT<AR>::rank };
+  if ((int)w.size() != R + 1) throw BadOp();
+  Call c; c.t.resize(R); c.xpos = -1; c.cf = cf;
+  for (int k = 0; k < R; ++k) {
+    if (!parse_arg(w[k + 1], c.t[k])) throw BadOp();
+    if (arg_rich(c.t[k])) { if (c.xpos >= 0) throw BadOp(); c.xpos = k; }
   }
+  if (c.xpos >= 0) return rich_slice(a, c);
+  return DoSlice<AR>::go(a, c);
+}
+
+// ------------------------------------------------------------------ rich expressions: building the argument
+enum { ROLE_S = 1, ROLE_B = 2, ROLE_E = 4, ROLE_BE = 8, ROLE_ST = 16 };
+template <bool On> struct XCall {
+  template <class F, class E> static typename F::result_type go(F& f, const E& e) { return f(e); }
 };
-// the two argument families of rank 5 are compiled in separate translation units
-VBase* slice5_int(Array<5,int>& a, const std::vector<Arg>& t);
-VBase* slice5_end(Array<5,int>& a, const std::vector<Arg>& t);
-template <> struct DoSlice<5, false> {
-  static VBase* go(Array<5,int>& a, const std::vector<Arg>& t) {
-    bool any_end = false;
-    for (size_t i = 0; i < t.size(); ++i)
-      if (t[i].kind != 3 && (t[i].b.from_end || (t[i].kind != 0 && t[i].e.from_end))) any_end = true;
-    return any_end ? slice5_end(a, t) : slice5_int(a, t);
+template <> struct XCall<false> {
+  template <class F, class E> static typename F::result_type go(F&, const E&) { throw BadOp(); }
+};
+// f(expression) with the expression built inside the call expression (nested expression objects refer to temporaries)
+template <int Limit, class F> inline typename F::result_type with_xscalar(const Tok& t, F& f) {
+  switch (t.shape) {
+#define X(ID) case ID: return XCall<(ID < Limit)>::go(f, XE_##ID(t.c));
+    XSHAPES(X)
+#undef X
   }
+  throw BadOp();
+}
+// the argument object of an operator() call that holds rich expressions: a scalar, or a RangeIndex whose begin /
+// end / both (same shape) / stride is rich, the plain end points going through end-(len-1-k)
+template <int Limit, int Roles, class F> inline typename F::result_type with_xarg(const Arg& x, int len, F& f) {
+  if (x.kind == 3) throw BadOp();
+  if (x.kind == 0) {
+    switch (x.b.shape) {
+#define X(ID) case ID: return XCall<(ID < Limit) && (Roles & ROLE_S)>::go(f, XE_##ID(x.b.c));
+      XSHAPES(X)
+#undef X
+    }
+    throw BadOp();
+  }
+  bool rb = x.b.cls == 2, re = x.e.cls == 2, rs = x.s.cls == 2;
+  if (rb && !re && !rs) switch (x.b.shape) {
+#define X(ID) case ID: return XCall<(ID < Limit) && (Roles & ROLE_B)>::go(f, stride(XE_##ID(x.b.c), via_end(x.e, len), x.s.k));
+      XSHAPES(X)
+#undef X
+  }
+  if (!rb && re && !rs) switch (x.e.shape) {
+#define X(ID) case ID: return XCall<(ID < Limit) && (Roles & ROLE_E)>::go(f, stride(via_end(x.b, len), XE_##ID(x.e.c), x.s.k));
+      XSHAPES(X)
+#undef X
+  }
+  if (rb && re && !rs && x.b.shape == x.e.shape) switch (x.b.shape) {
+#define X(ID) case ID: return XCall<(ID < Limit) && (Roles & ROLE_BE)>::go(f, stride(XE_##ID(x.b.c), XE_##ID(x.e.c), x.s.k));
+      XSHAPES(X)
+#undef X
+  }
+  if (!rb && !re && rs) switch (x.s.shape) {
+#define X(ID) case ID: return XCall<(ID < Limit) && (Roles & ROLE_ST)>::go(f, stride(via_end(x.b, len), via_end(x.e, len), XE_##ID(x.s.c)));
+      XSHAPES(X)
+#undef X
+  }
+  throw BadOp();
+}
+template <class AR, int Fam> struct SliceCont {
+  typedef VBase* result_type;
+  AR& a; const Call& c;
+  SliceCont(AR& a_, const Call& c_) : a(a_), c(c_) {}
+  template <class XA> VBase* operator()(const XA& x) { return SliceDisp<AR, 0, Fam, XA, false, false>::go(a, c, x); }
 };
-template <int R> inline VBase* do_slice(Array<R,int>& a, const std::vector<Arg>& t) { return DoSlice<R>::go(a, t); }
+template <class AR, int Limit, int Roles, int Fam> inline VBase* rich_slice_t(AR& a, const Call& c) {
+  SliceCont<AR, Fam> f(a, c);
+  return with_xarg<Limit, Roles>(c.t[c.xpos], a.dimension(c.xpos), f);
+}
 
 // ------------------------------------------------------------------ subset(b0,e0,...)
 template <typename T> inline T cv(const Tok& t, int len);
 template <> inline int cv<int>(const Tok& t, int) { return t.k; }
-template <> inline EndX cv<EndX>(const Tok& t, int len) { return t.from_end ? endx(t.k) : endx(len - 1 - t.k); }
+template <> inline EndX cv<EndX>(const Tok& t, int len) { return via_end(t, len); }
 #define BE(j) cv<T>(t[2*j], a.dimension(j)), cv<T>(t[2*j+1], a.dimension(j))
-template <typename T> inline VBase* subset_t(Array<1,int>& a, const std::vector<Tok>& t) { return wrap(a.subset(BE(0))); }
-template <typename T> inline VBase* subset_t(Array<2,int>& a, const std::vector<Tok>& t) { return wrap(a.subset(BE(0), BE(1))); }
-template <typename T> inline VBase* subset_t(Array<3,int>& a, const std::vector<Tok>& t) { return wrap(a.subset(BE(0), BE(1), BE(2))); }
-template <typename T> inline VBase* subset_t(Array<4,int>& a, const std::vector<Tok>& t) { return wrap(a.subset(BE(0), BE(1), BE(2), BE(3))); }
-template <typename T> inline VBase* subset_t(Array<5,int>& a, const std::vector<Tok>& t) { return wrap(a.subset(BE(0), BE(1), BE(2), BE(3), BE(4))); }
+template <int R> struct Subset;
+template <> struct Subset<1> { template <typename T, class AR> static VBase* go(AR& a, const std::vector<Tok>& t, bool cf) {
+  if (cf) return wrapc(static_cast<const AR&>(a).subset(BE(0))); return wrap(a.subset(BE(0))); } };
+template <> struct Subset<2> { template <typename T, class AR> static VBase* go(AR& a, const std::vector<Tok>& t, bool cf) {
+  if (cf) return wrapc(static_cast<const AR&>(a).subset(BE(0), BE(1))); return wrap(a.subset(BE(0), BE(1))); } };
+template <> struct Subset<3> { template <typename T, class AR> static VBase* go(AR& a, const std::vector<Tok>& t, bool cf) {
+  if (cf) return wrapc(static_cast<const AR&>(a).subset(BE(0), BE(1), BE(2))); return wrap(a.subset(BE(0), BE(1), BE(2))); } };
+template <> struct Subset<4> { template <typename T, class AR> static VBase* go(AR& a, const std::vector<Tok>& t, bool cf) {
+  if (cf) return wrapc(static_cast<const AR&>(a).subset(BE(0), BE(1), BE(2), BE(3))); return wrap(a.subset(BE(0), BE(1), BE(2), BE(3))); } };
+template <> struct Subset<5> { template <typename T, class AR> static VBase* go(AR& a, const std::vector<Tok>& t, bool cf) {
+  if (cf) return wrapc(static_cast<const AR&>(a).subset(BE(0), BE(1), BE(2), BE(3), BE(4)));
+  return wrap(a.subset(BE(0), BE(1), BE(2), BE(3), BE(4))); } };
+template <> struct Subset<6> { template <typename T, class AR> static VBase* go(AR& a, const std::vector<Tok>& t, bool cf) {
+  if (cf) return wrapc(static_cast<const AR&>(a).subset(BE(0), BE(1), BE(2), BE(3), BE(4), BE(5)));
+  return wrap(a.subset(BE(0), BE(1), BE(2), BE(3), BE(4), BE(5))); } };
 #undef BE
-
-// ------------------------------------------------------------------ rank-specific members
-template <int R> struct RankOps {   // R >= 3
-  static VBase* idx(Array<R,int>& a, const Tok& t) { return t.from_end ? wrap(a[endx(t.k)]) : wrap(a[t.k]); }
-  static VBase* T(Array<R,int>&) { throw BadOp(); }
-  static VBase* diag(Array<R,int>&, int) { throw BadOp(); }
-  static VBase* subdiag(Array<R,int>&, int, int) { throw BadOp(); }
-  static VBase* reshape(Array<R,int>&, const std::vector<int>&) { throw BadOp(); }
-};
-template <> struct RankOps<2> {
-  static VBase* idx(Array<2,int>& a, const Tok& t) { return t.from_end ? wrap(a[endx(t.k)]) : wrap(a[t.k]); }
-  static VBase* T(Array<2,int>& a) { return wrap(a.T()); }
-  static VBase* diag(Array<2,int>& a, int k) {
-    Array<1,int> d = a.diag_vector(k);
-    if (!d.data()) return 0;   // default-constructed (empty) vector
-    return wrap(d);
+template <class AR> inline VBase* op_subset(AR& a, const std::vector<std::string>& w, bool cf) {
+  enum { R = ArT<AR>::rank };
+  if ((int)w.size() != 2 * R + 1) throw BadOp();
+  std::vector<Tok> t(2 * R);
+  bool any_end = false, any_rich = false;
+  for (int k = 0; k < 2 * R; ++k) {
+    if (!parse_tok(w[k + 1], t[k])) throw BadOp();
+    any_end = any_end || t[k].cls == 1;
+    any_rich = any_rich || t[k].cls == 2;
   }
-  static VBase* subdiag(Array<2,int>& a, int b, int e) { return wrap(a.submatrix_on_diagonal(b, e)); }
-  static VBase* reshape(Array<2,int>&, const std::vector<int>&) { throw BadOp(); }
+  if (any_rich) return rich_subset(a, t, cf);
+  return any_end ? Subset<R>::template go<EndX>(a, t, cf) : Subset<R>::template go<int>(a, t, cf);
+}
+
+// ------------------------------------------------------------------ operator[], T, diag_vector, submatrix_on_diagonal, reshape
+// FixedArray of rank > 1 has no const operator[]
+template <bool HasConst> struct IdxC {
+  template <class AR, class I> static VBase* go(AR& a, const I& i, bool cf) {
+    if (cf) return wrapc(static_cast<const AR&>(a)[i]);
+    return wrap(a[i]);
+  }
 };
-template <> struct RankOps<1> {
-  static VBase* idx(Array<1,int>& a, const Tok& t) { return t.from_end ? wrap(a[endx(t.k)]) : wrap(a[t.k]); }
-  static VBase* T(Array<1,int>&) { throw BadOp(); }
-  static VBase* diag(Array<1,int>&, int) { throw BadOp(); }
-  static VBase* subdiag(Array<1,int>&, int, int) { throw BadOp(); }
-  static VBase* reshape(Array<1,int>& a, const std::vector<int>& d) {
+template <> struct IdxC<false> {
+  template <class AR, class I> static VBase* go(AR& a, const I& i, bool cf) {
+    if (cf) throw BadOp();
+    return wrap(a[i]);
+  }
+};
+template <class AR> inline VBase* op_idx(AR& a, const std::vector<std::string>& w, bool cf) {
+  Tok t;
+  if (w.size() != 2 || !parse_tok(w[1], t)) throw BadOp();
+  if (t.cls == 2) return rich_idx(a, t, cf);
+  typedef IdxC<!(ArT<AR>::fixed && ArT<AR>::rank > 1)> I;
+  return t.cls == 1 ? I::go(a, endx(t.k), cf) : I::go(a, t.k, cf);
+}
+template <bool Active> struct ReshapeHi {
+  template <class AR> static VBase* go(AR& a, const std::vector<int>& d) {
     switch (d.size()) {
-      case 1: return wrap(a.reshape(ExpressionSize<1>(d[0])));
-      case 2: return wrap(a.reshape(d[0], d[1]));
-      case 3: return wrap(a.reshape(ExpressionSize<3>(d[0], d[1], d[2])));
       case 4: return wrap(a.reshape(ExpressionSize<4>(d[0], d[1], d[2], d[3])));
       case 5: return wrap(a.reshape(ExpressionSize<5>(d[0], d[1], d[2], d[3], d[4])));
+      case 6: return wrap(a.reshape(ExpressionSize<6>(d[0], d[1], d[2], d[3], d[4], d[5])));
       default: throw BadOp();
     }
   }
 };
+template <> struct ReshapeHi<true> { template <class AR> static VBase* go(AR&, const std::vector<int>&) { throw BadOp(); } };
+template <int R> struct RankOps {   // R >= 3
+  template <class AR> static VBase* T(AR&, bool) { throw BadOp(); }
+  template <class AR> static VBase* diag(AR&, int) { throw BadOp(); }
+  template <class AR> static VBase* subdiag(AR&, int, int) { throw BadOp(); }
+  template <class AR> static VBase* reshape(AR&, const std::vector<int>&) { throw BadOp(); }
+};
+template <> struct RankOps<2> {
+  template <class AR> static VBase* T(AR& a, bool cf) { if (cf) return wrapc(static_cast<const AR&>(a).T()); return wrap(a.T()); }
+  template <class AR> static VBase* diag(AR& a, int k) {
+    Array<1, typename ArT<AR>::elem, ArT<AR>::active> d = a.diag_vector(k);
+    if (!d.data()) return 0;   // default-constructed (empty) vector
+    return wrap(d);
+  }
+  template <class AR> static VBase* subdiag(AR& a, int b, int e) { return wrap(a.submatrix_on_diagonal(b, e)); }
+  template <class AR> static VBase* reshape(AR&, const std::vector<int>&) { throw BadOp(); }
+};
+template <bool Fixed> struct Reshape1 {
+  template <class AR> static VBase* go(AR& a, const std::vector<int>& d) {
+    switch (d.size()) {
+      case 1: return wrap(a.reshape(ExpressionSize<1>(d[0])));
+      case 2: return wrap(a.reshape(d[0], d[1]));
+      case 3: return wrap(a.reshape(ExpressionSize<3>(d[0], d[1], d[2])));
+      default: return ReshapeHi<ArT<AR>::active>::go(a, d);
+    }
+  }
+};
+template <> struct Reshape1<true> { template <class AR> static VBase* go(AR&, const std::vector<int>&) { throw BadOp(); } };
+template <> struct RankOps<1> {
+  template <class AR> static VBase* T(AR&, bool) { throw BadOp(); }
+  template <class AR> static VBase* diag(AR&, int) { throw BadOp(); }
+  template <class AR> static VBase* subdiag(AR&, int, int) { throw BadOp(); }
+  template <class AR> static VBase* reshape(AR& a, const std::vector<int>& d) { return Reshape1<ArT<AR>::fixed>::go(a, d); }
+};
+// soft_link, is_contiguous: Array only
+template <bool Fixed> struct ArrOnly {
+  template <class AR> static VBase* softlink(AR& a, bool cf) { if (cf) return wrapc(static_cast<const AR&>(a).soft_link()); return wrap(a.soft_link()); }
+  template <class AR> static int contig(AR& a) { return a.is_contiguous() ? 1 : 0; }
+};
+template <> struct ArrOnly<true> {
+  template <class AR> static VBase* softlink(AR&, bool) { throw BadOp(); }
+  template <class AR> static int contig(AR&) { throw BadOp(); }
+};
 
-template <int R> struct V : VBase {
-  Array<R,int> a;
-  explicit V(const Array<R,int>& x) : a(x) {}   // copy constructor: links, no copy
-  int rank() const { return R; }
-  int contig() { return a.is_contiguous() ? 1 : 0; }
+// ------------------------------------------------------------------ every operation on one array object
+template <class AR> inline std::string describe_arr(AR& a) {
+  enum { R = ArT<AR>::rank };
+  typedef typename ArT<AR>::elem T;
+  const AR& ca = a;
+  std::ostringstream os;
+  os << "ok r=" << R << " d=";
+  for (int k = 0; k < R; ++k) os << (k ? "," : "") << a.dimension(k);
+  os << " s=";
+  for (int k = 0; k < R; ++k) os << (k ? "," : "") << a.offset(k);
+  long off = Mem<T>::cell(ca.data());
+  os << " o=" << off;
+  if (ArT<AR>::active && (long)(a.gradient_index() - g_gbase) != off) os << "!g" << (long)(a.gradient_index() - g_gbase);
+  os << " e=";
+  bool none = false;
+  for (int k = 0; k < R; ++k) if (a.dimension(k) <= 0) none = true;
+  int ix[R];
+  long j = 0;
+  if (!none) {
+    for (int k = 0; k < R; ++k) ix[k] = 0;
+    for (;;) {                                           // read through the const element access
+      os << (j ? "," : "") << elval(El<R>::cc(ca, ix));
+      ++j;
+      int k = R - 1;
+      while (k >= 0 && ++ix[k] == a.dimension(k)) { ix[k] = 0; --k; }
+      if (k < 0) break;
+    }
+    for (int k = 0; k < R; ++k) ix[k] = 0;
+    j = 0;
+    for (;;) {                                           // write through the non-const element access
+      ++j;
+      El<R>::nc(a, ix) = (T)(-j);
+      int k = R - 1;
+      while (k >= 0 && ++ix[k] == a.dimension(k)) { ix[k] = 0; --k; }
+      if (k < 0) break;
+    }
+  }
+  os << " w=" << dump_changes();
+  return os.str();
+}
+
+template <class AR> inline VBase* apply_arr(AR& a, const std::vector<std::string>& w0) {
+  enum { R = ArT<AR>::rank };
+  std::vector<std::string> w(w0);
+  bool cf = false;
+  if (w[0].size() > 1 && w[0][0] == 'c') { cf = true; w[0] = w[0].substr(1); }   // the const overload of the member
+  const std::string& op = w[0];
+  if (op == "slice") return op_slice(a, w, cf);
+  if (op == "subset") return op_subset(a, w, cf);
+  if (op == "idx") return op_idx(a, w, cf);
+  if (op == "T" && w.size() == 1) return RankOps<R>::T(a, cf);
+  if (op == "softlink" && w.size() == 1) return ArrOnly<ArT<AR>::fixed>::softlink(a, cf);
+  if (cf) throw BadOp();                 // permute, diag_vector, submatrix_on_diagonal, reshape have no const overload
+  if (op == "permute") {
+    if ((int)w.size() != R + 1) throw BadOp();
+    int p[R];
+    for (int k = 0; k < R; ++k) if (!parse_int(w[k + 1], p[k])) throw BadOp();
+    return wrap(a.permute(p));
+  }
+  if (op == "diag") {
+    int k;
+    if (w.size() != 2 || !parse_int(w[1], k)) throw BadOp();
+    return RankOps<R>::diag(a, k);
+  }
+  if (op == "subdiag") {
+    int b, e;
+    if (w.size() != 3 || !parse_int(w[1], b) || !parse_int(w[2], e)) throw BadOp();
+    return RankOps<R>::subdiag(a, b, e);
+  }
+  if (op == "reshape") {
+    std::vector<int> d(w.size() - 1);
+    if (d.empty() || d.size() > 6) throw BadOp();
+    for (size_t k = 0; k < d.size(); ++k) if (!parse_int(w[k + 1], d[k])) throw BadOp();
+    return RankOps<R>::reshape(a, d);
+  }
+  throw BadOp();
+}
+
+// an Array (the object itself is the view: the copy constructor links)
+template <class AR> struct V : VBase {
+  AR a;
+  explicit V(const AR& x) : a(x) {}
+  int rank() const { return ArT<AR>::rank; }
+  int contig() { return ArrOnly<false>::contig(a); }
   std::string indexed(const std::vector<std::string>& w) { return ix_op(a, w); }
-  std::string describe() {
-    std::ostringstream os;
-    os << "ok r=" << R << " d=";
-    for (int k = 0; k < R; ++k) os << (k ? "," : "") << a.dimension(k);
-    os << " s=";
-    for (int k = 0; k < R; ++k) os << (k ? "," : "") << a.offset(k);
-    os << " o=" << (a.data() - g_pdata) << " e=";
-    bool none = false;
-    for (int k = 0; k < R; ++k) if (a.dimension(k) <= 0) none = true;
-    int ix[R];
-    long j = 0;
-    if (!none) {
-      for (int k = 0; k < R; ++k) ix[k] = 0;
-      for (;;) {
-        os << (j ? "," : "") << elem(a, ix);
-        ++j;
-        int k = R - 1;
-        while (k >= 0 && ++ix[k] == a.dimension(k)) { ix[k] = 0; --k; }
-        if (k < 0) break;
-      }
-      for (int k = 0; k < R; ++k) ix[k] = 0;
-      j = 0;
-      for (;;) {
-        ++j;
-        elem(a, ix) = (int)(-j);
-        int k = R - 1;
-        while (k >= 0 && ++ix[k] == a.dimension(k)) { ix[k] = 0; --k; }
-        if (k < 0) break;
-      }
-    }
-    os << " w=" << dump_changes();
-    return os.str();
-  }
-  VBase* apply(const std::vector<std::string>& w) {
-    const std::string& op = w[0];
-    if (op == "slice") {
-      if ((int)w.size() != R + 1) throw BadOp();
-      std::vector<Arg> t(R);
-      for (int k = 0; k < R; ++k) if (!parse_arg(w[k + 1], t[k])) throw BadOp();
-      return do_slice<R>(a, t);
-    }
-    if (op == "subset") {
-      if ((int)w.size() != 2 * R + 1) throw BadOp();
-      std::vector<Tok> t(2 * R);
-      bool any_end = false;
-      for (int k = 0; k < 2 * R; ++k) { if (!parse_tok(w[k + 1], t[k])) throw BadOp(); any_end = any_end || t[k].from_end; }
-      return any_end ? subset_t<EndX>(a, t) : subset_t<int>(a, t);
-    }
-    if (op == "idx") {
-      Tok t;
-      if (w.size() != 2 || !parse_tok(w[1], t)) throw BadOp();
-      return RankOps<R>::idx(a, t);
-    }
-    if (op == "T" && w.size() == 1) return RankOps<R>::T(a);
-    if (op == "permute") {
-      if ((int)w.size() != R + 1) throw BadOp();
-      int p[R];
-      for (int k = 0; k < R; ++k) if (!parse_int(w[k + 1], p[k])) throw BadOp();
-      return wrap(a.permute(p));
-    }
-    if (op == "diag") {
-      int k;
-      if (w.size() != 2 || !parse_int(w[1], k)) throw BadOp();
-      return RankOps<R>::diag(a, k);
-    }
-    if (op == "subdiag") {
-      int b, e;
-      if (w.size() != 3 || !parse_int(w[1], b) || !parse_int(w[2], e)) throw BadOp();
-      return RankOps<R>::subdiag(a, b, e);
-    }
-    if (op == "reshape") {
-      std::vector<int> d(w.size() - 1);
-      if (d.empty() || d.size() > 5) throw BadOp();
-      for (size_t k = 0; k < d.size(); ++k) if (!parse_int(w[k + 1], d[k])) throw BadOp();
-      return RankOps<R>::reshape(a, d);
-    }
-    if (op == "softlink" && w.size() == 1) return wrap(a.soft_link());
-    throw BadOp();
-  }
+  std::string describe() { return describe_arr(a); }
+  VBase* apply(const std::vector<std::string>& w) { return apply_arr(a, w); }
+};
+// the FixedArray parent (owned by the main program)
+template <class FA> struct VF : VBase {
+  FA* f;
+  explicit VF(FA* x) : f(x) {}
+  int rank() const { return ArT<FA>::rank; }
+  int contig() { throw BadOp(); }
+  std::string indexed(const std::vector<std::string>&) { throw BadOp(); }
+  std::string describe() { return describe_arr(*f); }
+  VBase* apply(const std::vector<std::string>& w) { return apply_arr(*f, w); }
 };
 
 // ------------------------------------------------------------------ parents
-template <int R> inline VBase* make_parent(const std::vector<int>& d, Array<R,int>*& keep) {
+template <class AR> inline VBase* make_parent(const std::vector<int>& d, AR*& keep) {
+  enum { R = ArT<AR>::rank };
+  typedef typename ArT<AR>::elem T;
   ExpressionSize<R> dims;
   for (int k = 0; k < R; ++k) dims[k] = d[k];
-  keep = new Array<R,int>(dims);
-  g_pdata = keep->data();
+  keep = new AR(dims);
   g_vol = 1;
   for (int k = 0; k < R; ++k) g_vol *= d[k];
-  for (long c = 0; c < g_vol; ++c) g_pdata[c] = (int)c;
-  return new V<R>(*keep);
+  T* p = keep->data();
+  set_base(p);
+  g_gbase = keep->gradient_index();
+  for (long c = 0; c < g_vol; ++c) p[c] = (T)c;
+  return new V<AR>(*keep);
 }
+VBase* make_fixed(const std::vector<int>& d, Fix1*& f1, Fix2*& f2, Fix2s*& f2s, Fix3*& f3);
 
-// one per rank, defined next to V<R>
+// one per rank, defined next to V<AR>
 VBase* make_parent_1(const std::vector<int>& d, Array<1,int>*& keep);
 VBase* make_parent_2(const std::vector<int>& d, Array<2,int>*& keep);
 VBase* make_parent_3(const std::vector<int>& d, Array<3,int>*& keep);
 VBase* make_parent_4(const std::vector<int>& d, Array<4,int>*& keep);
 VBase* make_parent_5(const std::vector<int>& d, Array<5,int>*& keep);
+VBase* make_parent_6(const std::vector<int>& d, Array<6,int>*& keep);
+VBase* make_aparent_1(const std::vector<int>& d, Array<1,double,true>*& keep);
+VBase* make_aparent_2(const std::vector<int>& d, Array<2,double,true>*& keep);
+VBase* make_aparent_3(const std::vector<int>& d, Array<3,double,true>*& keep);
 #define VIEWS_DEFINE_RANK(R) \
-  VBase* wrap(const Array<R,int>& a) { return new V<R>(a); } \
-  VBase* make_parent_##R(const std::vector<int>& d, Array<R,int>*& keep) { return make_parent<R>(d, keep); }
+  VBase* wrap(const Array<R,int>& a) { return new V<Array<R,int> >(a); } \
+  VBase* make_parent_##R(const std::vector<int>& d, Array<R,int>*& keep) { return make_parent<Array<R,int> >(d, keep); }
+#define VIEWS_DEFINE_ACTIVE_RANK(R) \
+  VBase* wrap(const Array<R,double,true>& a) { return new V<Array<R,double,true> >(a); } \
+  VBase* make_aparent_##R(const std::vector<int>& d, Array<R,double,true>*& keep) { return make_parent<Array<R,double,true> >(d, keep); }
+#define VIEWS_DEFINE_SLICE_FAMILY(R, NAME, FAM) \
+  VBase* NAME(Array<R,int>& a, const Call& c) { return slice_fam<Array<R,int>, FAM>(a, c); }
 #endif
